@@ -782,7 +782,7 @@ func runC02case(base string, c c02case, rep *hx.Report) c02result {
 			switch rng.Intn(10) {
 			case 0, 1, 2:
 				o.kind = "begin"
-				o.variant = []string{"ok", "ok", "ok", "unknown", "size", "sid", "badpath"}[rng.Intn(7)]
+				o.variant = []string{"ok", "ok", "ok", "unknown", "size", "sid", "badpath", "cs0"}[rng.Intn(8)]
 			case 3, 4, 5, 6:
 				o.kind = "chunk"
 				o.variant = []string{"good", "good", "good", "badcrc", "range", "long", "len0", "forged", "good"}[rng.Intn(9)]
@@ -877,10 +877,6 @@ func runC02case(base string, c c02case, rep *hx.Report) c02result {
 			key, id := uint64(12345), "x"
 			if f != nil {
 				key, id = f.key, f.item.ID
-			}
-			// only for files the receiver already knows: before FileBegin the main loop would block for good
-			if !(r.begunAt[key] || r.doneAt[key]) {
-				return true
 			}
 			return r.pushCtl(transfer.ResumeRequest{FileID: id, StreamID: key}, fmt.Sprintf("Recv.CResumeReq %d true", key))
 		case "other":
